@@ -185,6 +185,8 @@ def parse_operand(s):
         return ("move", parse_place(s[5:]))
     if s.startswith("const "):
         return parse_const(s[6:])
+    if re.fullmatch(r"[A-Za-z_][\w:<>&', ]*", s):
+        return ("const", "fnitem", s, None)      # a bare function item passed as an argument
     raise MirParseError("operand: " + s)
 
 
